@@ -1729,11 +1729,12 @@ def GET_EYE(
         # and crossing amplitude
         cond = (input > v25) & (input < v75)
 
-        ty = np.vstack([t[cond], input[cond]]).T
+        # amplitude is normalized by the eye height, so that the clustering does not depend on the units of the signal
+        ty = np.vstack([t[cond], (input[cond] - state_0) / d01]).T
 
         # We get centroids of 2 clusters for t,y
         kmeans.fit(ty)
-        ty_c = kmeans.cluster_centers_
+        ty_c = kmeans.cluster_centers_ * [1, d01] + [0, state_0]
 
         left = np.argmin(ty_c[:,0])
         right = np.argmax(ty_c[:,0])
